@@ -155,6 +155,8 @@ def run_case(case):
 
 
 def replay(case):
+    if "cfg" in case:
+        return ccheck.replay(case)
     return run_case(case)["violations"]
 
 
